@@ -208,6 +208,15 @@ add("C09", "TLC on Harmonic.tla (FFT / Hartley entries as exact volume and fract
     "spherical-harmonic transforms must be adjoint-consistent and map the l=0 coefficient to the same constant map on GL and HEALPix pixelisations.",
     TRUST + "cos/sin/exp of the exact turn are evaluated by NumPy (1e-12); the SHT normalisation beyond adjointness and the l=0 mode is not covered.")
 
+add("C36", "TLC on Minisanity.tla (reduced chi-square, mean, degrees of freedom and ignored entries of residual samples with NaNs and exact zeros in exact rationals) + replay of every instance into nifty.cl.extra.minisanity and nifty.re.minisanity",
+    "Every placement of NaNs / exact zeros / values over 2-4 entries and 1-3 samples is a TLC state carrying the expected statistics as exact rationals "
+    "(per sample: sum |r|^2 / ndof and sum r / ndof over the entries that are neither NaN nor 0; their sample average and unbiased variance; ndof and the "
+    "ignored count). Each instance is fed to the classic diagnostics through a unit-noise Gaussian likelihood (residual = sample; data residuals and latent "
+    "variables), through a scaled one (data 1, variance 4), and pairwise as two keys of a sum of likelihoods; where no entry is ignored the JAX "
+    "diagnostics (reduced_residual_stats directly and minisanity with the normalised residual of jft.Gaussian) must report the same mean, reduced "
+    "chi-square and ndof.",
+    TRUST + "NaN is the marker 99 in the specification; the spread reported by the JAX diagnostics (population std) and the complex-valued conventions are not compared.")
+
 
 def main():
     props = [json.loads(l) for l in open(os.path.join(HERE, "properties.jsonl"))]
